@@ -1,6 +1,6 @@
 """C12 — scores are BM25 over the searcher's statistics and explain agrees: layering and shared arithmetic."""
 from ..model import (trace_through, trace_back, op_local, op_place, place_local, is_bare, provenance, proj_fields)
-from ..rules import (rule_precede, rule_must_pass, get_body, calls_to, site, short, rule_who_may_call, option_root, return_defs)
+from ..rules import (rule_precede, rule_must_pass, get_body, calls_to, site, short, rule_who_may_call, option_root, return_defs, whole_iteration)
 from .. import codetab as ct
 
 Q = "tantivy::query::"
@@ -322,8 +322,9 @@ def r1(rep, prog):
         if b is None:
             continue
         sr = calls_to(prog, b, {SE + "::segment_readers"})
-        loops = [bb for bb, t in b.calls() if t.get("f", "").endswith("Iterator::next") and bb in b.reachable(tuple(b.succ(bb)))]
-        rep.check(len(sr) == 1 and bool(loops), R, "Searcher::%s sums over every segment reader" % m, "iterates Searcher::segment_readers()", "Searcher's %s no longer loops over all segment readers" % m, site=b.span)
+        form, why = whole_iteration(prog, b, sr[0][0]) if len(sr) == 1 else (None, "%d calls of segment_readers()" % len(sr))
+        rep.check(len(sr) == 1 and form is not None, R, "Searcher::%s sums over every segment reader" % m, "iterates Searcher::segment_readers(): %s" % why,
+                  "Searcher's %s no longer visits all segment readers (%s)" % (m, why), site=b.span)
     b = get_body(rep, prog, R, P + "doc_freq")
     if b is not None:
         rep.check(len(calls_to(prog, b, {SE + "::doc_freq"})) == 1, R, "provider doc_freq delegates to Searcher::doc_freq", "delegation", "Bm25StatisticsProvider::doc_freq for Searcher no longer delegates to Searcher::doc_freq", site=b.span)
